@@ -1463,11 +1463,13 @@ def desugar(rec, prog, stats):
         if c == "core::iter::Iterator::try_fold" and len(t["args"]) == 3 and not t["dest"]["proj"] and len(t.get("cargs") or []) == 4 \
                 and t["cargs"][0].get("k") == "adt" and t["cargs"][0].get("path") in NEXT_RESOLVE \
                 and t["cargs"][3].get("k") == "adt" and t["cargs"][3].get("path") == "core::result::Result" and t["cargs"][3]["args"][0] == t["cargs"][1] \
-                and all(a_["k"] in ("move", "copy") and not a_["place"]["proj"] for a_ in t["args"]) \
+                and all(a_["k"] in ("move", "copy") and not a_["place"]["proj"] for a_ in (t["args"][0], t["args"][2])) \
+                and (t["args"][1]["k"] == "const" or (t["args"][1]["k"] in ("move", "copy") and not t["args"][1]["place"]["proj"])) \
                 and rec["locals"][t["args"][2]["place"]["local"]].get("k") == "closure" and rec["locals"][t["args"][2]["place"]["local"]].get("path") in prog.fns:
             # it.try_fold(init, |acc, x| body)  ->  let mut acc = init; loop { match it.next() { None => break Ok(acc), Some(x) => acc = body(acc, x)? } }
             ity, accty, fty, rty = t["cargs"]
-            itl, initl, fl = (a_["place"]["local"] for a_ in t["args"])
+            itl, fl = t["args"][0]["place"]["local"], t["args"][2]["place"]["local"]
+            init_op = copy.deepcopy(t["args"][1])
             cl = prog.fns[fty["path"]].rec
             if len(cl["locals"]) >= 4 and cl.get("argc") == 3:
                 item_ty = cl["locals"][3]
@@ -1487,7 +1489,7 @@ def desugar(rec, prog, stats):
                 acc, r, nx, d, item, tup, cr, rr, d2 = range(n, n + 9)
                 nb = len(rec["blocks"])
                 H, S, N, B, C, K, E, U = nb, nb + 1, nb + 2, nb + 3, nb + 4, nb + 5, nb + 6, nb + 7
-                blk["stmts"] = list(blk["stmts"]) + [{"k": "assign", "place": {"local": acc, "proj": []}, "rv": {"k": "use", "op": {"k": "move", "place": {"local": initl, "proj": []}}}, "line": line}]
+                blk["stmts"] = list(blk["stmts"]) + [{"k": "assign", "place": {"local": acc, "proj": []}, "rv": {"k": "use", "op": init_op}, "line": line}]
                 blk["term"] = {"k": "goto", "target": H}
                 rec["blocks"].append({"stmts": [{"k": "assign", "place": {"local": r, "proj": []}, "rv": {"k": "ref", "mut": True, "place": it_place}, "line": line}],
                                       "term": {"k": "call", "callee": "core::iter::Iterator::next", "resolved": NEXT_RESOLVE[ity["path"]], "cargs": [ity], "rargs": ity.get("args", []),
